@@ -253,7 +253,7 @@ pub struct Built {
 struct Task {
     name: &'static str,
     killable: bool,
-    fut: Option<Pin<Box<dyn Future<Output = ()>>>>,
+    fut: Option<crate::quarantine::QDyn>,
     waker: Waker,
     woken: bool,
     done: bool,
@@ -283,6 +283,7 @@ const MAX_STEPS: u64 = 20_000;
 /// Runs one scenario to completion under the given chooser.
 pub fn run(def: &ScenDef, cfg: &Cfg, mut ch: Chooser) -> RunOut {
     drain_woken();
+    crate::quarantine::reset();
     let rep: Rep = Rc::new(RefCell::new(Report::default()));
     let built = (def.build)(cfg, &mut ch, &rep);
     let clock = built.clock;
@@ -291,7 +292,7 @@ pub fn run(def: &ScenDef, cfg: &Cfg, mut ch: Chooser) -> RunOut {
         .tasks
         .into_iter()
         .enumerate()
-        .map(|(i, t)| Task { name: t.name, killable: t.killable, fut: Some(t.fut), waker: Waker::from(Arc::new(TaskWaker(i))), woken: true, done: false, killed: false })
+        .map(|(i, t)| Task { name: t.name, killable: t.killable, fut: Some(crate::quarantine::QDyn::new(t.fut, "task state machine")), waker: Waker::from(Arc::new(TaskWaker(i))), woken: true, done: false, killed: false })
         .collect();
     let timer = built.timer;
     let p_kill = crate::core::cfg_get(cfg, "p_kill", 0) as usize;
@@ -395,7 +396,7 @@ pub fn run(def: &ScenDef, cfg: &Cfg, mut ch: Chooser) -> RunOut {
             let res = {
                 let f = tasks[i].fut.as_mut().unwrap();
                 crate::core::QUIET_PANICS.with(|q| q.set(true));
-                let r = std::panic::catch_unwind(std::panic::AssertUnwindSafe(|| f.as_mut().poll(&mut cx)));
+                let r = std::panic::catch_unwind(std::panic::AssertUnwindSafe(|| f.poll(&mut cx)));
                 crate::core::QUIET_PANICS.with(|q| q.set(false));
                 r
             };
@@ -410,7 +411,9 @@ pub fn run(def: &ScenDef, cfg: &Cfg, mut ch: Chooser) -> RunOut {
                 Err(_) => {
                     let msg = crate::core::take_last_panic().unwrap_or_default();
                     // the state machine is poisoned: leak it instead of running its destructors
-                    std::mem::forget(tasks[i].fut.take());
+                    if let Some(f) = tasks[i].fut.take() {
+                        f.leak();
+                    }
                     tasks[i].killed = true;
                     let is_assert = msg.starts_with("SCENARIO:");
                     if !is_assert {
@@ -473,10 +476,13 @@ pub fn run(def: &ScenDef, cfg: &Cfg, mut ch: Chooser) -> RunOut {
     if had_fail {
         // the world may be inconsistent: leak instead of running destructors over it
         for t in tasks.iter_mut() {
-            std::mem::forget(t.fut.take());
+            if let Some(f) = t.fut.take() {
+                f.leak();
+            }
         }
         std::mem::forget(timer);
         std::mem::forget(built.finish);
+        crate::quarantine::reset();
     } else {
         for t in tasks.iter_mut() {
             t.fut = None;
@@ -484,6 +490,10 @@ pub fn run(def: &ScenDef, cfg: &Cfg, mut ch: Chooser) -> RunOut {
         drop(timer);
         let mut r = rep.borrow_mut();
         (built.finish)(&mut r);
+        // C01: nothing wrote into the memory of a finished or killed task after it was dropped
+        if let Some(msg) = crate::quarantine::check_and_release() {
+            r.fail("C01", "write-after-drop", msg);
+        }
     }
     drain_woken();
     let r = rep.borrow();
